@@ -2,6 +2,8 @@
 package ybad
 
 import (
+    "strconv"
+
     "github.com/z7zmey/php-parser/pkg/ast"
     "github.com/z7zmey/php-parser/pkg/token"
 )
@@ -151,10 +153,19 @@ pair:
 leaf:
         T_A
             {
-                $$ = &ast.Leaf{
-                    Position: yylex.(*Parser).builder.NewTokenPosition($1),
-                    LeafTkn: $1,
-                    Value: yylex.(*Parser).currentToken.Value,
+                // bad (int-parse-decimal): numeric leaves are told apart by a parse that guesses the base
+                if _, err := strconv.ParseInt(string($1.Value), 0, 64); err == nil {
+                    $$ = &ast.Leaf{
+                        Position: yylex.(*Parser).builder.NewTokenPosition($1),
+                        LeafTkn: $1,
+                        Value: yylex.(*Parser).currentToken.Value,
+                    }
+                } else {
+                    $$ = &ast.Leaf{
+                        Position: yylex.(*Parser).builder.NewTokenPosition($1),
+                        LeafTkn: $1,
+                        Value: yylex.(*Parser).currentToken.Value,
+                    }
                 }
             }
 ;
